@@ -442,11 +442,16 @@ def run(prop, spec, tier, seed, replay, scratch, nproc, t0):
         log("KNOWN-FINDING: property=%s %s (probe %s)" % (key[0], text, key[1]))
 
     # ---- floors ----
-    floor_missing = []
+    floor_missing, soft_missing = [], []
     if not replay:
         for name in spec.get("floors", lambda t: [])(tier):
             if merged["counters"].get(name, 0) <= 0:
                 floor_missing.append(name)
+        # implementation-shaped events (size-class transitions, pool reuse, insert paths): their absence is
+        # reported, it does not make the run inconclusive (a correct refactoring may remove them)
+        for name in spec.get("soft_floors", lambda t: [])(tier):
+            if merged["counters"].get(name, 0) <= 0:
+                soft_missing.append(name)
 
     wall = time.time() - t0
     cov = dict(merged["counters"])
@@ -462,6 +467,8 @@ def run(prop, spec, tier, seed, replay, scratch, nproc, t0):
         "known_findings_seen": ["%s %s" % (k[1], t) for k, t in sorted(known_seen.items())],
         "floors_required": spec.get("floors", lambda t: [])(tier),
         "floors_missing": floor_missing,
+        "expected_events_required_soft": spec.get("soft_floors", lambda t: [])(tier),
+        "expected_events_not_observed": soft_missing,
         "crashed_workers": len(crashes),
         "watchdog_timeouts": len(timeouts),
     }
@@ -498,6 +505,8 @@ def run(prop, spec, tier, seed, replay, scratch, nproc, t0):
             os.makedirs(os.path.join(VERIF, "evidence-thorough"), exist_ok=True)
             with open(os.path.join(VERIF, "evidence-thorough", prop + ".json"), "w") as f:
                 json.dump(evidence, f, indent=1, sort_keys=True)
+    if soft_missing:
+        log("COVERAGE-NOTE property=%s expected structural events not observed in this run: %s" % (prop, ", ".join(soft_missing)))
     for l in lines:
         log(l)
     log("%s %s seed=%d: evaluations=%d distinct=%d violations=%d known=%d wall=%.1fs" % (
